@@ -290,6 +290,10 @@ def run(ctx):
                                    lossy_filter=lambda b, o: not re.match(r"^i32-as-u32", o.sub), floor_bodies=25,
                                    desc="no reachable panic/overflow/OOB/unwrap/unsafe-precondition/lossy number in the decoders")
 
+    if ctx.tier == "thorough":
+        from .. import clippyxref
+        clippyxref.run(ctx, "CLIPPY-XREF", [prog.body(p) for p in sorted(dyn) if prog.body(p) is not None])
+
     # ---------------- (b) Raw non-empty ---------------------------------------------------------------------------
     ctx.rule("RAW-NONEMPTY", "Raw(..) events are constructed only where `reject.is_empty()` is false", floor=2)
     n = 0
